@@ -36,7 +36,7 @@ ASSUMPTIONS = ['randomised routines are called with an explicit seed; samplers w
                'unseeded k-medoids) are excluded and listed under excluded_routines',
                'results are compared bitwise (NaN by position, sparse matrices after canonicalisation); exceptions must be of the same type '
                'in every execution', 'python containers passed as arguments may be updated; ndarray and sparse arguments may not']
-REACH_EXPECTED = ['perturb_poison', 'perturb_threads', 'perturb_history', 'perturb_rng', 'perturb_reuse_buffers', 'perturb_repeat',
+REACH_EXPECTED = ['perturb_sibling_fresh_process', 'perturb_poison', 'perturb_threads', 'perturb_history', 'perturb_sibling', 'perturb_rng', 'perturb_reuse_buffers', 'perturb_repeat',
                   'masked_sites_executed_under_poison']
 EXCLUDED = {'msm.synthetic_data.synthetic_trajectory': 'sampler without seed argument',
             'msm.bootstrap.*': 'sampler without seed argument (and real multiprocessing)',
@@ -442,8 +442,25 @@ def catalogue():
         rs = np.random.RandomState(t.draw(2 ** 31 - 1))
         lens = [t.irange(1, 5) for _ in range(t.irange(1, 5))]
         flat = rs.rand(sum(lens)).round(2)
-        which = t.draw(6)
+        which = t.draw(8)
         thr = float(np.sort(flat)[t.draw(len(flat))])
+        if which >= 6:
+            # fancy indexing with index arrays (negative entries included): the index arrays are arguments too
+            k = t.irange(1, 3)
+            rows_i = np.array([t.draw(len(lens)) for _ in range(k)])
+            cols_i = np.array([t.draw(lens[r]) for r in rows_i])
+            neg_r = np.array([t.flag() for _ in range(k)])
+            neg_c = np.array([t.flag() for _ in range(k)])
+            ri = np.where(neg_r, rows_i - len(lens), rows_i)
+            ci = np.where(neg_c, cols_i - np.array(lens)[rows_i], cols_i)
+            if which == 6:
+                return (lambda flat, lens, ri, ci: ra.RaggedArray(flat, lengths=lens)[(ri, ci)]), [flat, lens, ri, ci], set()
+
+            def fancy_set(flat, lens, ri, ci):
+                a = ra.RaggedArray(flat, lengths=lens)
+                a[(ri, ci)] = -2.0
+                return a
+            return fancy_set, [flat, lens, ri, ci], set()
         if which == 0:
             return (lambda flat, lens: ra.RaggedArray(flat, lengths=lens) * 2 + 1), [flat, lens], set()
         if which == 1:
@@ -624,10 +641,26 @@ def scenario(ctx):
     fn, args, inplace_ok = gen(t)
     ctx.scenario.update(routine=name, args=[summ(a) for a in args])
     ctx.count('routine:' + name)
+    # "the same routine was used with other arguments first", in a process that has not yet seen this call: a forked
+    # child runs one or two sibling calls and then the real one; the parent then runs the real call first (baseline)
+    pre = None
+    if t.flag(1, 3):
+        sibs = [gen(t) for _h in range(t.irange(1, 2))]
+
+        def child():
+            for f2, a2, _ in sibs:
+                run_once(f2, a2, 0, 1, 1, None)
+            return run_once(fn, args, 0, 1, 1, None)[0]
+        pre = forked(child)
+        ctx.hit('perturb_sibling_fresh_process')
     base, b_before, b_after, bad, _ = run_once(fn, args, 0, 1, 1, None)
+    if pre is not None:
+        if pre[0] == 'crashed':
+            raise SimViolation('interpreter_crash', '%s killed a forked child (%s)' % (name, pre[1]))
+        compare(ctx, name, base, pre, 'sibling call first in a fresh process state', 0, 1)
     check_args(name, b_before, b_after, inplace_ok, 'baseline')
     require(bad == 0, 'out_of_bounds_write', lambda: '%s damaged %d red zones' % (name, bad))
-    kinds = ['poison', 'poison', 'threads', 'history', 'rng', 'reuse', 'repeat']
+    kinds = ['poison', 'poison', 'threads', 'history', 'sibling', 'rng', 'reuse', 'repeat']
     perts = []
     for _ in range(3):
         kind = t.choice(kinds)
@@ -649,6 +682,12 @@ def scenario(ctx):
                 run_once(f2, a2, poison, pseed, 1, None)
                 names.append(n2)
             desc = 'history:' + ','.join(names)
+        if kind == 'sibling':
+            # the same routine was just used with other arguments (other sizes, other scalar parameters)
+            for _h in range(t.irange(1, 2)):
+                f2, a2, _ = gen(t)
+                run_once(f2, a2, poison, pseed, 1, None)
+            desc = 'sibling call first'
         if kind == 'rng':
             np.random.seed(t.draw(2 ** 31 - 1))
             np.random.rand(1 + t.draw(30))
@@ -671,7 +710,7 @@ def scenario(ctx):
         check_args(name, before, after, inplace_ok, desc)
         require(bad == 0, 'out_of_bounds_write', lambda: '%s damaged %d red zones under %s' % (name, bad, desc))
         compare(ctx, name, base, res, desc, poison, T)
-        ctx.hit({'poison': 'perturb_poison', 'threads': 'perturb_threads', 'history': 'perturb_history', 'rng': 'perturb_rng',
+        ctx.hit({'poison': 'perturb_poison', 'threads': 'perturb_threads', 'history': 'perturb_history', 'sibling': 'perturb_sibling', 'rng': 'perturb_rng',
                  'repeat': 'perturb_repeat'}[kind])
         if poison:
             ctx.fault('poison_' + native.POISON_MODES[poison])
@@ -688,6 +727,40 @@ def scenario(ctx):
         for s_ in list(_SITE_HITS):
             ctx.hit('site:' + s_)
         _SITE_HITS.clear()
+
+
+def forked(thunk):
+    """run thunk() in a forked child and return its (picklable) result, or ('crashed', why)"""
+    import pickle
+    import signal
+    r, w = os.pipe()
+    pid = os.fork()
+    if pid == 0:
+        code = 0
+        try:
+            os.close(r)
+            signal.alarm(0)
+            signal.setitimer(signal.ITIMER_VIRTUAL, 0)
+            data = pickle.dumps(thunk())
+            off = 0
+            while off < len(data):
+                off += os.write(w, data[off:off + 65536])
+        except BaseException:      # noqa
+            code = 3
+        finally:
+            os._exit(code)
+    os.close(w)
+    chunks = []
+    while True:
+        b = os.read(r, 1 << 20)
+        if not b:
+            break
+        chunks.append(b)
+    os.close(r)
+    _, status = os.waitpid(pid, 0)
+    if not chunks or status != 0:
+        return ('crashed', 'status %s' % status)
+    return pickle.loads(b''.join(chunks))
 
 
 def reuse_call(fn, args, poison, pseed):
@@ -758,7 +831,7 @@ def compare(ctx, name, base, res, desc, poison, T):
         return
     d = diff(base[1], res[1])
     if d is not None:
-        cls = 'uninitialised_read' if (poison and not desc.startswith(('history', 'reuse', 'rng'))) else 'result_depends_on_context'
+        cls = 'uninitialised_read' if (poison and not desc.startswith(('history', 'reuse', 'rng', 'sibling'))) else 'result_depends_on_context'
         if T > 1 and not poison and desc.startswith('threads'):
             cls = 'thread_count_dependent'
         raise SimViolation(cls, '%s under %s (poison=%s, T=%d): %s' % (name, desc, native.POISON_MODES.get(poison), T, d))
